@@ -8,6 +8,7 @@ import (
 
 // SpecEnv resolves identifiers inside specification expressions.
 type SpecEnv struct {
+	bound  map[string]*Val // quantifier-bound variables (visible inside old(...) too)
 	heapOf func(global *Term) *Term // current heap array for a heap field (nil: the entry heap constants)
 	names map[string]*Val
 	st    *State // caller state for locals / ghost (may be nil)
@@ -67,8 +68,22 @@ func (env *SpecEnv) lookup(name string) *Val {
 		st := arraySort(SInt, SBool)
 		return tv(&Term{Op: "(as const " + st.String() + ")", Args: []*Term{tFalse}, S: st}, nil)
 	}
+	if name == "$alloc" {
+		h := cnst("H_alloc", arraySort(SRef, SBool))
+		if env.heapOf != nil {
+			if env.st != nil {
+				if v, ok := env.st.ghost["H:$alloc"]; ok {
+					return tv(v.T, nil)
+				}
+			}
+			if v, ok := env.names["$allocNow"]; ok {
+				return v
+			}
+		}
+		return tv(h, nil)
+	}
 	if strings.HasPrefix(name, "$") {
-		return &Val{T: realLit("0"), Mag: -1}
+		return &Val{T: intLit(0), Lit: true, Mag: -1}
 	}
 	return nil
 }
@@ -138,6 +153,12 @@ func (w *World) trSpec(e *SExpr, env *SpecEnv) *Val {
 			rs, gt := w.resolveSpecType(sf.Pkg, sf.Ret)
 			return tv(mk(specFuncSMTName(sf), rs), gt)
 		}
+		if pk := w.Pkgs[env.pkg]; pk != nil {
+			if v, ok := pk.Types.Scope().Lookup(e.Name).(*types.Var); ok {
+				name := "G_" + mangle(shortPkg(v.Pkg().Path())) + "_" + v.Name()
+				return tv(cnst(name, w.sortOf(v.Type())), v.Type())
+			}
+		}
 		panic(fmt.Sprintf("spec: unknown identifier %q (%s)", e.Name, e.Pos))
 	case "un":
 		if e.Name == "*" {
@@ -203,7 +224,15 @@ func (w *World) trSpec(e *SExpr, env *SpecEnv) *Val {
 			bvs = append(bvs, c)
 			extra[v.Name] = tv(c, gt)
 		}
-		body := w.trSpec(e.Args[0], env.with(extra))
+		qenv := env.with(extra)
+		qenv.bound = map[string]*Val{}
+		for k, v := range env.bound {
+			qenv.bound[k] = v
+		}
+		for k, v := range extra {
+			qenv.bound[k] = v
+		}
+		body := w.trSpec(e.Args[0], qenv)
 		return tv(&Term{Op: e.Name, Args: []*Term{body.T}, S: SBool, BVars: bvs}, nil)
 	case "call":
 		return w.trSpecCall(e, env)
@@ -335,6 +364,9 @@ func (w *World) trSpecCall(e *SExpr, env *SpecEnv) *Val {
 	case "old":
 		if env.old == nil {
 			return w.trSpec(args[0], env)
+		}
+		if len(env.bound) > 0 {
+			return w.trSpec(args[0], env.old.with(env.bound))
 		}
 		return w.trSpec(args[0], env.old)
 	case "ite":
